@@ -96,6 +96,9 @@ class StabNoise(Harness):
         spec = declare_clifford(S, self.n)
         assume_inv(S, spec)
         spec["p"] = sym_p(S)
+        if self.start == "lossy":
+            p2 = sym_p(S, "p2")
+            S.assume(p2 <= 0.9)
         return spec
 
     def body(self, S, spec):
@@ -106,17 +109,23 @@ class StabNoise(Harness):
         n, q = self.n, self.q
         p = spec["p"]
         T = fresh_clifford(spec)
-        qs = QuantumState(T, rep_type="s", mixed=(self.start == "mixed"))
+        qs = QuantumState(T, rep_type="s", mixed=(self.start in ("mixed", "lossy")))
         old_d, old_s = pre_rows(spec)
+        w0 = 1
+        if self.start == "lossy":
+            # a photon was lost earlier with probability p2: the mixture is sub-normalised and must stay so
+            p2 = S.real("p2") if S.symbolic else S.real("p2")
+            nm.PhotonLoss(p2).apply(qs, n, [q])
+            w0 = 1 - p2
         if self.model == "depolarizing":
             nm.DepolarizingNoise(p).apply(qs, n, [q])
             mix = qs.rep_data.mixture
             total = 0
             for w, t in mix:
                 total = total + w
-            S.prove("total-weight-preserved", D.close(total, 1, 1e-9))
+            S.prove("total-weight-preserved", D.close(total, w0, 1e-9))
             # every component is P_k T with weight w_k(p); components with equal tableaux may have been merged
-            expected = {"I": 1 - p, "X": p / 3, "Y": p / 3, "Z": p / 3}
+            expected = {"I": (1 - p) * w0, "X": (p / 3) * w0, "Y": (p / 3) * w0, "Z": (p / 3) * w0}
             for ci, (w, t) in enumerate(mix):
                 if not prove_inv(S, t, tag=f"inv[{ci}]"):
                     return
@@ -263,7 +272,7 @@ def plan(tier):
     for n in ([1, 2] if q else [1, 2]):
         for qq in range(n):
             for model in ("depolarizing", "pauliX", "pauliY", "pauliZ", "pauliI", "loss"):
-                for start in (("pure",) if model != "depolarizing" else ("pure", "mixed")):
+                for start in (("pure",) if model != "depolarizing" else ("pure", "mixed", "lossy")):
                     jobs.append((StabNoise(n=n, q=qq, model=model, start=start), {}))
     for backend in ("s", "dm"):
         for gate in ("H", "CNOT"):
